@@ -363,7 +363,14 @@ func (a Float) M__bool__() (Object, error) {
 }
 
 func (a Float) M__int__() (Object, error) {
-	if a >= IntMin && a <= IntMax {
+	if math.IsNaN(float64(a)) {
+		return nil, ExceptionNewf(ValueError, "cannot convert float NaN to integer")
+	}
+	if math.IsInf(float64(a), 0) {
+		return nil, ExceptionNewf(OverflowError, "cannot convert float infinity to integer")
+	}
+	// -2**63 <= a < 2**63 (Float(IntMax) itself is 2**63)
+	if a >= IntMin && a < -Float(IntMin) {
 		return Int(a), nil
 	}
 	frac, exp := math.Frexp(float64(a))              // x = frac << exp; 0.5 <= abs(x) < 1
